@@ -98,6 +98,11 @@ func wfRangeReq(o *ObjectRangeRequest) bool {
 //@ ensures           fresh:   typeis(ret0, *resourceErrorResponse) && fresh(dyn(ret0, *resourceErrorResponse))
 //@ modifies nothing
 
+//@ func requestTimeTooSkewed
+//@ props C09
+//@ ensures           code:    ret0 != nil && errcode(ret0) == ErrRequestTimeTooSkewed
+//@ modifies nothing
+
 //@ func BucketNotFound
 //@ props C09
 //@ ensures           code:    ret0 != nil && errcode(ret0) == ErrNoSuchBucket
@@ -162,6 +167,7 @@ func wfRangeReq(o *ObjectRangeRequest) bool {
 //@ requires          rdr:     r != nil
 //@ ensures [C08,C12] exact:   imp(err == nil, len(b) == size && rd_pos(r) == old(rd_pos(r)) + size)
 //@ ensures [C01]     content: imp(err == nil, all(i, 0, size, b[i] == rd_data(r)[old(rd_pos(r)) + i]))
+//@ ensures [C08]     drained: imp(err == nil, rd_pos(r) == rd_len(r))
 //@ ensures [C08]     nothing: imp(err != nil, b == nil)
 //@ ensures [C08]     fresh:   imp(err == nil && size > 0, fresh(b))
 //@ modifies rd_pos(r)
@@ -211,11 +217,16 @@ func wfRangeReq(o *ObjectRangeRequest) bool {
 //@ ghost lp_marker : Int
 //@ ghost lp_limit : Int
 //@ ghost lp_id : Str
+// the last multi-delete handed to the backend
+//@ ghost dm_count : Int
+//@ ghost dm_bucket : Str
+//@ ghost dm_keys : Sl
 //@ ghost get_count : Int
 //@ ghost get_bucket : Str
 //@ ghost get_key : Str
 //@ ghost get_ver : Str
 //@ ghost get_obj : Int
+//@ ghost get_ranged : Bool
 
 //@ iface gofakes3.TimeSource.Now
 
@@ -802,13 +813,14 @@ func wfRangeReq(o *ObjectRangeRequest) bool {
 //@ requires           prefix: prefix != nil
 //@ ensures            res:    imp(ret1 == nil, ret0 != nil && all(i, 0, len(ret0.Contents), ret0.Contents[i] != nil))
 //@ iface gofakes3.Backend.HeadObject
-//@ modifies get_count, get_bucket, get_key, get_ver, get_obj
+//@ modifies get_count, get_bucket, get_key, get_ver, get_obj, get_ranged
 //@ ensures            res:    imp(ret1 == nil, ret0 != nil && ret0.Contents != nil)
 //@ ensures            log:    get_count == old(get_count) + 1 && get_bucket == bucketName && get_key == objectName && get_ver == "" && get_obj == ret0
 //@ iface gofakes3.Backend.GetObject
 //@ requires [C11]     wf:     wfRangeReq(rangeRequest)
-//@ modifies get_count, get_bucket, get_key, get_ver, get_obj
-//@ ensures            log:    get_count == old(get_count) + 1 && get_bucket == bucketName && get_key == objectName && get_ver == "" && get_obj == ret0
+//@ modifies get_count, get_bucket, get_key, get_ver, get_obj, get_ranged
+//@ ensures            log:    get_count == old(get_count) + 1 && get_bucket == bucketName && get_key == objectName && get_ver == "" && get_obj == ret0 &&
+//@                              get_ranged == (rangeRequest != nil)
 //@ ensures            res:    imp(ret1 == nil, ret0 != nil && ret0.Contents != nil && ret0.Size >= 0)
 //@ ensures [C11]      range:  imp(ret1 == nil && ret0 != nil && ret0.Range != nil, 0 <= ret0.Range.Start && 1 <= ret0.Range.Length &&
 //@                              ret0.Range.Start + ret0.Range.Length <= ret0.Size)
@@ -823,7 +835,8 @@ func wfRangeReq(o *ObjectRangeRequest) bool {
 //@ iface gofakes3.Backend.DeleteObject
 //@ modifies store_gen
 //@ iface gofakes3.Backend.DeleteMulti
-//@ modifies store_gen
+//@ modifies store_gen, dm_count, dm_bucket, dm_keys
+//@ ensures            log:    dm_count == old(dm_count) + 1 && dm_bucket == bucketName && dm_keys == objects
 //@ iface gofakes3.Backend.CopyObject
 //@ requires           meta:   meta != nil
 //@ modifies store_gen
@@ -833,13 +846,14 @@ func wfRangeReq(o *ObjectRangeRequest) bool {
 //@ modifies store_gen
 //@ iface gofakes3.VersionedBackend.GetObjectVersion
 //@ requires [C11]     wf:     wfRangeReq(rangeRequest)
-//@ modifies get_count, get_bucket, get_key, get_ver, get_obj
-//@ ensures            log:    get_count == old(get_count) + 1 && get_bucket == bucketName && get_key == objectName && get_ver == versionID && get_obj == ret0
+//@ modifies get_count, get_bucket, get_key, get_ver, get_obj, get_ranged
+//@ ensures            log:    get_count == old(get_count) + 1 && get_bucket == bucketName && get_key == objectName && get_ver == versionID && get_obj == ret0 &&
+//@                              get_ranged == (rangeRequest != nil)
 //@ ensures            res:    imp(ret1 == nil && ret0 != nil, ret0.Contents != nil && ret0.Size >= 0)
 //@ ensures [C11]      range:  imp(ret1 == nil && ret0 != nil && ret0.Range != nil, 0 <= ret0.Range.Start && 1 <= ret0.Range.Length &&
 //@                              ret0.Range.Start + ret0.Range.Length <= ret0.Size)
 //@ iface gofakes3.VersionedBackend.HeadObjectVersion
-//@ modifies get_count, get_bucket, get_key, get_ver, get_obj
+//@ modifies get_count, get_bucket, get_key, get_ver, get_obj, get_ranged
 //@ ensures            log:    get_count == old(get_count) + 1 && get_bucket == bucketName && get_key == objectName && get_ver == versionID && get_obj == ret0
 //@ ensures            res:    imp(ret1 == nil && ret0 != nil, ret0.Contents != nil)
 //@ iface gofakes3.VersionedBackend.DeleteObjectVersion
@@ -893,6 +907,7 @@ func wfRangeReq(o *ObjectRangeRequest) bool {
 //@ func (*GoFakeS3).httpError
 //@ props C09
 //@ requires           inv:    gInv(g) && w != nil && r != nil
+//@ modifies resp_status(w), resp_writes(w), fieldof(ErrorResponse, RequestID), fieldof(resourceErrorResponse, ErrorResponse.RequestID), fieldof(requestTimeTooSkewedResponse, ErrorResponse.RequestID), fieldof(ErrorInvalidArgumentResponse, ErrorResponse.RequestID)
 
 //@ func (*GoFakeS3).xmlEncoder
 //@ props C09
@@ -1001,6 +1016,7 @@ func wfRangeReq(o *ObjectRangeRequest) bool {
 //@ requires           inv:    gInv(g) && w != nil && rqInv(r)
 //@ ensures [C05,C01]  asked:  imp(ret0 == nil, get_count == old(get_count) + 1 && get_bucket == bucket && get_key == object && get_ver == versionID)
 //@ ensures [C01]      length: imp(ret0 == nil, hdr_set(w.Header())["Content-Length"] && hdr_set(w.Header())["ETag"])
+//@ ensures [C11]      ranged: imp(get_count == old(get_count) + 1, get_ranged == (old(r.Header).Get("Range") != ""))
 //@ func (*GoFakeS3).getObject$1
 //@ props C09
 //@ requires           inv:    Contents != nil && g != nil && *g != nil && (*g).log != nil
@@ -1038,10 +1054,10 @@ func wfRangeReq(o *ObjectRangeRequest) bool {
 //@ ensures [C08]      reject: imp(err != nil && errcode(err) != "" && !g.autoBucket, store_gen == old(store_gen))
 //@ ensures [C08]      badlen: imp(err == nil && resp_status(w) == 400 && old(resp_status(w)) != 400 && !g.autoBucket, store_gen == old(store_gen))
 //@ func (*GoFakeS3).copyObject
-//@ props C09 C08 C02
+//@ props C09 C08 C02 C10
 //@ requires           inv:    gInv(g) && w != nil && rqInv(r) && meta != nil
 //@ ensures [C08]      reject: imp(err != nil && errcode(err) != "" && !g.autoBucket, store_gen == old(store_gen))
-//@ modifies store_gen, resp_writes(w), meta[:], get_count, get_bucket, get_key, get_ver, get_obj
+//@ modifies store_gen, resp_writes(w), meta[:], get_count, get_bucket, get_key, get_ver, get_obj, get_ranged
 //@ func (*GoFakeS3).deleteObject
 //@ props C09 C02
 //@ requires           inv:    gInv(g) && w != nil && rqInv(r)
@@ -1051,6 +1067,10 @@ func wfRangeReq(o *ObjectRangeRequest) bool {
 //@ func (*GoFakeS3).deleteMulti
 //@ props C09 C02
 //@ requires           inv:    gInv(g) && w != nil && rqInv(r)
+//@ loop 1 invariant   keys:   len(keys) == len(in.Objects) && -1 <= rangeindex && rangeindex < len(in.Objects) &&
+//@                              all(j, 0, rangeindex + 1, keys[j] == in.Objects[j].Key)
+//@ rethint [C02]      asked:  imp(dm_count == old(dm_count) + 1, dm_bucket == bucket && sllen(dm_keys) == len(in.Objects) &&
+//@                              all(j, 0, len(in.Objects), slstr(dm_keys, j) == in.Objects[j].Key))
 //@ func (*GoFakeS3).initiateMultipartUpload
 //@ props C09 C06
 //@ requires           inv:    gInv(g) && w != nil && rqInv(r)
@@ -1122,6 +1142,11 @@ func wfRangeReq(o *ObjectRangeRequest) bool {
 //@ requires [C11]     inside: imp(o != nil, 0 <= o.Start && 1 <= o.Length && o.Start + o.Length <= sz)
 //@ ensures [C01,C11]  length: hdr_set(w.Header())["Content-Length"]
 //@ ensures [C11]      crange: imp(o != nil, hdr_set(w.Header())["Content-Range"])
+// the values: Content-Length is the number of bytes that follow, Content-Range is
+// 'bytes first-last/size' for the slice (fmt.Sprintf over plain integers is a function of its operands)
+//@ ensures [C01,C11]  lenval: hdr_val(w.Header())["Content-Length"] == fmt.Sprintf("%d", ite(o != nil, o.Length, sz))
+//@ ensures [C11]      crval:  imp(o != nil, hdr_val(w.Header())["Content-Range"] ==
+//@                              fmt.Sprintf("bytes %d-%d/%d", o.Start, o.Start + o.Length - 1, sz))
 //@ modifies nothing
 
 //@ func (*hashingReader).Sum
@@ -1136,7 +1161,7 @@ func wfRangeReq(o *ObjectRangeRequest) bool {
 //@ loop 1 invariant   keep:   allstr(k, imp(old(has(meta, k)), has(meta, k) && meta[k] == old(meta[k])))
 //@ ensures [C01]      keep:   allstr(k, imp(old(has(meta, k)), has(meta, k) && meta[k] == old(meta[k])))
 //@ ensures            err:    imp(ret0 != nil, unchanged())
-//@ modifies meta[:], get_count, get_bucket, get_key, get_ver, get_obj
+//@ modifies meta[:], get_count, get_bucket, get_key, get_ver, get_obj, get_ranged
 
 //@ func CopyObject
 //@ props C02 C01 C08 C09
@@ -1144,7 +1169,7 @@ func wfRangeReq(o *ObjectRangeRequest) bool {
 //@ ensures [C08]      reject: imp(err != nil, store_gen == old(store_gen))
 //@ ensures [C02,C01]  copy:   imp(err == nil, get_count == old(get_count) + 1 && get_bucket == srcBucket && get_key == srcKey && get_ver == "" &&
 //@                              put_count == old(put_count) + 1 && put_bucket == dstBucket && put_key == dstKey && put_meta == meta)
-//@ modifies store_gen, put_count, put_bucket, put_key, put_meta, put_size, put_input, rd_pos, get_count, get_bucket, get_key, get_ver, get_obj
+//@ modifies store_gen, put_count, put_bucket, put_key, put_meta, put_size, put_input, rd_pos, get_count, get_bucket, get_key, get_ver, get_obj, get_ranged
 
 //@ func (MFADeleteStatus).Enabled
 //@ props C05
@@ -1164,6 +1189,18 @@ func wfRangeReq(o *ObjectRangeRequest) bool {
 
 //@ pred specFirstLabel(h) = ite(contains(h, "."), substr(h, 0, indexof(h, ".")), h)
 //@ pred specHostPath(bucket, p) = "/" + bucket + ite(p == "/", "", p)
+
+// C09: a request rejected for clock skew is answered by the error document alone; it is handed to
+// the next handler only if nothing has been written to the response yet, and at most once.
+//@ func (*GoFakeS3).timeSkewMiddleware$1
+//@ props C09
+//@ requires          inv:    g != nil && *g != nil && gInv(*g) && handler != nil && *handler != nil && w != nil && rq != nil && rq.URL != nil
+// the limit is a configured duration; New installs this middleware only for a non-zero one, and
+// negating it must not wrap
+//@ requires          limit:  (*g).timeSkew > -9223372036854775808
+//@ ensures [C09]     once:   served_count == old(served_count) || served_count == old(served_count) + 1
+//@ ensures [C09]     excl:   imp(served_count != old(served_count), served_req == rq &&
+//@                             served_pre_status == old(resp_status(w)) && served_pre_writes == old(resp_writes(w)))
 
 //@ func (*GoFakeS3).hostBucketMiddleware$1
 //@ props C16 C09
